@@ -763,6 +763,10 @@ class S3StorageBackend(StorageBackend):
         from .s3_consistency import with_s3_retry
 
         s3_prefix = self._get_s3_key(prefix)
+        # List a DIRECTORY, not a string prefix: 'data' must not match
+        # 'data_old/...' nor 'metadata' match 'metadata.version-hint.text'.
+        if s3_prefix and not s3_prefix.endswith("/"):
+            s3_prefix += "/"
 
         def list_op() -> List[str]:
             result = []
